@@ -427,3 +427,22 @@ Definition pc_mism (c : p_case) : bool :=
 Definition pc_bad (c : p_case) : bool := negb (C20_plan_check (pc_plan c) (pc_dec c) (pc_rest c)).
 Definition pc_old_fails (c : p_case) : bool :=
   match decode (encode true (pc_plan c)) with None => true | Some _ => false end.
+
+(* ------------------------------------------------------------------------------ *)
+(* The transmit loader wired to the progress telemetry, as in a run: the count registered for the
+   plan, then one increment per Load that carried transmits (the number of upkeeps in them). *)
+Definition wired_verdict (ups : list g_upkeep) (logs : list g_log) (loads : list Z) : bool :=
+  verdict [(expected_performs ups logs, run_msgs loads)].
+
+Definition C20_wired_check (ups : list g_upkeep) (logs : list g_log) (loads : list Z) (obs_success : bool) : bool :=
+  Bool.eqb obs_success (verdict_spec [(expected_spec ups logs, loads)]).
+
+Record w_case := mkWCase { wc_ups : list g_upkeep; wc_logs : list g_log;
+                           wc_loads : list Z;        (* upkeeps put on chain by each non-empty Load *)
+                           wc_obs : bool }.          (* AllProgressComplete() *)
+Definition wc_mism (c : w_case) : bool :=
+  negb (Bool.eqb (wired_verdict (wc_ups c) (wc_logs c) (wc_loads c)) (wc_obs c)).
+Definition wc_bad (c : w_case) : bool := negb (C20_wired_check (wc_ups c) (wc_logs c) (wc_loads c) (wc_obs c)).
+(* coverage: nothing expected, yet something performed *)
+Definition wc_negative_broken (c : w_case) : bool :=
+  (expected_performs (wc_ups c) (wc_logs c) =? 0) && negb (Nat.eqb (length (wc_loads c)) 0).
